@@ -378,6 +378,9 @@ func (w *c01worker) runProgram(s0 ref.State, base *mem.Image, stale bool, g *vf.
 	sr := s0
 	w.rig.loadPrim(s0, stale, g)
 	w.rig.loadAltFromPrim()
+	if g.Bool() {
+		w.rig.observeFromHooks()
+	}
 	for steps = 0; steps < maxSteps; steps++ {
 		pre := sr
 		mr.ResetStep()
@@ -463,7 +466,7 @@ func (w *c01worker) runProgram(s0 ref.State, base *mem.Image, stale bool, g *vf.
 func genProgram(g *vf.Rng, s *ref.State, img *mem.Image, n int) {
 	boosted := []byte{0xC2, 0xE2, 0x28, 0x40, 0xFB, 0x08, 0x48, 0x68, 0xDA, 0xFA, 0x5A, 0x7A, 0x0B, 0x2B, 0x8B, 0xAB, 0x4B,
 		0xAA, 0xA8, 0x8A, 0x98, 0x9A, 0xBA, 0x9B, 0xBB, 0x1B, 0x3B, 0x5B, 0x7B, 0xEB, 0x54, 0x44, 0x18, 0x38, 0xD8, 0xF8,
-		0xA9, 0xA2, 0xA0, 0x69, 0xE9, 0xC9, 0xE0, 0xC0, 0xE8, 0xC8, 0xCA, 0x88, 0x1A, 0x3A, 0xF4, 0x62, 0xD4}
+		0xA9, 0xA2, 0xA0, 0x69, 0xE9, 0xC9, 0xE0, 0xC0, 0xE8, 0xC8, 0xCA, 0x88, 0x1A, 0x3A, 0xF4, 0x62, 0xD4, 0x42}
 	a := uint32(s.K)<<16 | uint32(s.PC)
 	for i := 0; i < n; {
 		var op byte
